@@ -9,7 +9,7 @@ from vlib import log
 FOCUS = {
     "C01": dict(gens=[("file", 22)], quick=120, thorough=1500, what="export/tamper/import histories over two wallets"),
     "C02": dict(gens=[("core", 16)], quick=60, thorough=1500, what="all wallet calls with restart projection after every step"),
-    "C03": dict(gens=[("core", 16)], quick=120, thorough=1500, what="passphrase arguments of every class; secrets in memory while locked"),
+    "C03": dict(gens=[("core", 16), ("file", 20)], quick=80, thorough=1500, what="passphrase arguments of every class; secrets in memory while locked"),
     "C04": dict(gens=[("core", 14), ("file", 14)], quick=70, thorough=800, what="clear-text scan of store, exports and log after every step"),
     "C05": dict(gens=[("core", 16)], quick=120, thorough=1500, what="every issued key signs verifiably iff unlocked"),
     "C06": dict(gens=[("core", 16), ("file", 16)], quick=70, thorough=800, what="plot-key issuance interleaved with everything else"),
@@ -98,7 +98,7 @@ def validate(v, prop, d, scen, traces):
         if i in acc or True:
             e = vlib.match_known(prop, dict(tag=tag)) or vlib.match_known(tag.split("-")[0], dict(tag=tag))
             if e:
-                v.known(e, "scenario %d: %s" % (traces[i]["sc"], tag))
+                v.known(e, "scenario %d: %s (%s)" % (traces[i]["sc"], tag, e.get("what", "")[:90]))
             else:
                 v.violation("scenario %d: deviation %s taken but not a listed finding" % (traces[i]["sc"], tag), dict(scenario=scen[i], tag=tag))
     for i, t in enumerate(traces):
